@@ -3,6 +3,7 @@ package ast
 import (
 	"bytes"
 	"fmt"
+	"sort"
 	"strings"
 
 	"github.com/risor-io/risor/internal/tmpl"
@@ -269,9 +270,18 @@ func (m *Map) Items() map[Expression]Expression { return m.items }
 
 func (m *Map) String() string {
 	var out bytes.Buffer
-	pairs := make([]string, 0)
-	for key, value := range m.items {
-		pairs = append(pairs, key.String()+":"+value.String())
+	// Render the entries in source order: the text is stored with compiled
+	// code, so it must not depend on map iteration order.
+	keys := make([]Expression, 0, len(m.items))
+	for key := range m.items {
+		keys = append(keys, key)
+	}
+	sort.Slice(keys, func(i, j int) bool {
+		return keys[i].Token().StartPosition.Char < keys[j].Token().StartPosition.Char
+	})
+	pairs := make([]string, 0, len(keys))
+	for _, key := range keys {
+		pairs = append(pairs, key.String()+":"+m.items[key].String())
 	}
 	out.WriteString("{")
 	out.WriteString(strings.Join(pairs, ", "))
